@@ -281,6 +281,9 @@ func (l leafDesc) hasDash() bool { return strings.Contains(l.tagPath("_"), "-") 
 
 // envName: PREFIX_PATH_TO_FIELD read literally (upper case, levels joined by '_').
 func (l leafDesc) envName(prefix string) string {
+	if prefix == "" {
+		return strings.ToUpper(l.tagPath("_"))
+	}
 	return strings.ToUpper(prefix) + "_" + strings.ToUpper(l.tagPath("_"))
 }
 
